@@ -114,7 +114,7 @@ def classes(rnd, count, products=False):
         if rnd.random() < 0.06:  # U-gram rules: products whose first factor is not an atom and has a positive minimum, repeated children
             import ugram
 
-            sig = rnd.choice(["Q", "Y", "E", "F", "S", "QY", "P", "P"])
+            sig = rnd.choice(["Q", "Y", "E", "F", "S", "QY", "P", "P", "R", "R"])
             pack = ugram.inner_pack(sig)
             names = [k for st in pack.initial_strats for k in getattr(st, "table", {})]
             if names:
